@@ -2,7 +2,7 @@
 # usage: seedverify.sh <Cxx> <n>   verifies a sub-agent's seeded change in its scratch worktree /tmp/seed/<Cxx>
 # (patch applies, builds, suite passes, demo fails with / passes without) and copies it to /verif/seeded/<Cxx>-<n>/
 export GOFLAGS=-mod=mod GOPROXY=off GOSUMDB=off GOTOOLCHAIN=local
-id=$1; n=$2; wt=/tmp/seed/$id; src=$wt/out/$n; log=/tmp/seed/$id.verify$n.log
+id=$1; n=$2; R=${SEEDROOT:-/tmp/seed}; SFX=${SEEDSFX:-}; wt=$R/$id; src=$wt/out/$n; log=$R/$id.verify$n.log
 exec >$log 2>&1
 cd $wt || exit 2
 git checkout -q -- . ; rm -f zz_demo_test.go
@@ -14,20 +14,20 @@ if git apply --numstat $src/patch.diff | awk '{print $3}' | grep -q '_test.go$';
 # unpatched: demo passes
 cp $demo zz_demo_test.go
 names=$(grep -o '^func Test[A-Za-z0-9_]*' zz_demo_test.go | sed 's/func //' | paste -sd'|')
-go test -vet=off -count=1 -timeout 10m -run "^($names)\$" . >/tmp/seed/$id.demo_unpatched$n.log 2>&1; up=$?
+go test -vet=off -count=1 -timeout 10m -run "^($names)\$" . >$R/$id.demo_unpatched$n.log 2>&1; up=$?
 rm -f zz_demo_test.go
 git apply $src/patch.diff
 go build ./... || { echo "RESULT $id-$n does-not-build"; git checkout -q -- .; exit 1; }
-go test -vet=off -count=1 -timeout 25m . >/tmp/seed/$id.suite$n.log 2>&1; suite=$?
+go test -vet=off -count=1 -timeout 25m . >$R/$id.suite$n.log 2>&1; suite=$?
 cp $demo zz_demo_test.go
-go test -vet=off -count=1 -timeout 10m -run "^($names)\$" . >/tmp/seed/$id.demo_patched$n.log 2>&1; pp=$?
+go test -vet=off -count=1 -timeout 10m -run "^($names)\$" . >$R/$id.demo_patched$n.log 2>&1; pp=$?
 rm -f zz_demo_test.go
 git checkout -q -- . ; rm -rf data
 echo "unpatched-demo-exit=$up suite-exit=$suite patched-demo-exit=$pp"
 if [ $up -eq 0 ] && [ $suite -eq 0 ] && [ $pp -ne 0 ]; then
-  d=/verif/seeded/$id-$n; mkdir -p $d
+  d=/verif/seeded/$id-$SFX$n; mkdir -p $d
   cp $src/patch.diff $d/patch.diff; cp $demo $d/$(basename $demo); [ -f $src/notes.md ] && cp $src/notes.md $d/notes.md
-  echo "RESULT $id-$n confirmed"
+  echo "RESULT $id-$SFX$n confirmed"
 else
   echo "RESULT $id-$n REJECTED unpatched=$up suite=$suite patched=$pp"
 fi
